@@ -20,20 +20,25 @@ IMPORTS = "From Aelys Require Import Extracted.HeapConsts Model.HeapLimit Model.
 KIND = {0: "ok", 1: "OutOfMemory", 2: "InvalidAllocationSize", 3: "TypeError", 5: "panic", 6: "abort", 7: "timeout", 9: "other"}
 FAMILY = {"array_int": "array_new", "array_float": "array_new", "array_bool": "array_new", "array_obj": "array_new",
           "vec_push": "vec_push", "vec_push_float": "vec_push", "vec_push_bool": "vec_push", "vec_push_obj": "vec_push",
+          "vec_fill": "vec_push", "vec_fill_float": "vec_push", "vec_fill_bool": "vec_push", "vec_fill_obj": "vec_push",
           "vec_reserve": "vec_reserve", "vec_reserve_float": "vec_reserve", "vec_reserve_bool": "vec_reserve", "vec_reserve_obj": "vec_reserve",
           "manual_alloc": "manual_alloc", "manual_reuse": "manual_alloc", "bytes_alloc": "bytes_alloc",
           "string_repeat": "string_repeat", "string_repeat_mb": "string_repeat", "pad_left": "string_pad", "pad_right": "string_pad",
           "pad_left_mb": "string_pad", "pad_right_mb": "string_pad", "concat_double": "string_concat",
+          "replace_sq": "string_product", "join_sq": "string_product",
           "vec_new_lit": "vec_literal", "closures": "closure"}
 # bytes per unit of the size argument
 UNIT = {"array_int": 8, "array_float": 8, "array_obj": 8, "array_bool": 1, "vec_push": 8, "vec_push_float": 8, "vec_push_obj": 8,
         "vec_push_bool": 1, "vec_reserve": 8, "vec_reserve_float": 8, "vec_reserve_obj": 8, "vec_reserve_bool": 1, "manual_alloc": 8,
+        "vec_fill": 8, "vec_fill_float": 8, "vec_fill_obj": 8, "vec_fill_bool": 1,
         "manual_reuse": 8, "bytes_alloc": 1, "string_repeat": 16, "string_repeat_mb": 6, "pad_left": 1, "pad_right": 1,
         "pad_left_mb": 3, "pad_right_mb": 3}
 CAP_LO, CAP_HI = 1536 << 20, 3072 << 20
-LOOPS = ("vec_push", "vec_push_float", "vec_push_bool", "vec_push_obj", "concat_double", "vec_new_lit", "closures",
-         "manual_reuse")   # a refusal in the middle leaves the earlier charges
-MODELLED = set(UNIT) | {"concat_double"}
+LOOPS = ("vec_push", "vec_push_float", "vec_push_bool", "vec_push_obj", "vec_fill", "vec_fill_float", "vec_fill_bool", "vec_fill_obj",
+         "concat_double", "vec_new_lit", "closures", "manual_reuse", "replace_sq", "join_sq")   # a refusal in the middle leaves the earlier charges
+GUARDED_LOOPS = ("vec_new_lit", "closures")      # modelled as OLoop with the per-iteration requests read from the check log
+MODELLED = set(UNIT) | {"concat_double", "replace_sq", "join_sq"} | set(GUARDED_LOOPS)
+HOST_T = 65536
 # operations that make ONE request: when they are refused the host must not have been asked for anything
 SINGLE = {"array_int", "array_float", "array_bool", "array_obj", "vec_reserve", "vec_reserve_float", "vec_reserve_bool", "vec_reserve_obj",
           "manual_alloc", "bytes_alloc", "string_repeat", "string_repeat_mb", "pad_left", "pad_right", "pad_left_mb", "pad_right_mb"}
@@ -46,15 +51,22 @@ def parse(out):
         if len(f) < 7:
             continue
         o = f[6].split()
+        detail = f[7] if len(f) > 7 else ""
+        ev = {"nhost": 0, "maxhost": 0, "uncovered": 0, "first_uncovered": 0, "nchecks": 0, "nrefused": 0, "events": 0, "ck": None}
+        m = re.match(r"EV:(\d+):(\d+):(\d+):(\d+):(\d+):(\d+):(\d+):(\d+):CK=(\S*)", detail)
+        if m:
+            g = m.groups()
+            ev = {"nhost": int(g[0]), "maxhost": int(g[1]), "uncovered": int(g[2]), "first_uncovered": int(g[3]), "nchecks": int(g[4]),
+                  "nrefused": int(g[5]), "events": int(g[7]), "ck": [x for x in g[8].split(",") if x] if int(g[7]) <= 96 else None}
         rows.append({"id": int(f[0]), "op": f[1], "size": int(f[2]), "limit": int(f[3]), "opt": int(f[4]), "coq_op": f[5],
-                     "kind": int(o[0]), "delta": int(o[1]), "dpeak_kib": int(o[2]), "a0": int(o[3]), "detail": f[7] if len(f) > 7 else ""})
+                     "kind": int(o[0]), "delta": int(o[1]), "dpeak_kib": int(o[2]), "a0": int(o[3]), "detail": detail, "ev": ev})
     return rows
 
 
 def size_class(r):
     if r["size"] < 0:
         return "negative"
-    if r["size"] * UNIT.get(r["op"], 8) >= (1 << 30):
+    if r["size"] * (r["size"] if r["op"] in ("replace_sq", "join_sq") else UNIT.get(r["op"], 8)) >= (1 << 30):
         return "huge"
     return "moderate"
 
@@ -92,7 +104,13 @@ def calibrate(rows):
             continue
         # operations without a failing case: the smallest size of the grid (no iteration / nothing reserved)
         if r["kind"] == 0 and r["size"] <= 0 and r["op"] in LOOPS:
-            base.setdefault(key, set()).add(r["delta"])
+            d = r["delta"]
+            if r["op"] in ("replace_sq", "join_sq"):
+                d -= 24       # the empty string, allocated once
+            if r["op"].startswith("vec_fill"):
+                # the reservation itself is part of the modelled operation: rsv elements of growth from capacity 1
+                d -= int(r["coq_op"].split()[-1]) * UNIT[r["op"]]
+            base.setdefault(key, set()).add(d)
     return c, base
 
 
@@ -121,6 +139,18 @@ def oracle(ctx, r, const, stats):
 
     # refused, but the host had already been asked for memory: the address space of the process grew although the
     # operation makes a single request and that request was turned down (on the unchanged tree the growth is exactly 0)
+    ev = r["ev"]
+    # the order log (global allocator of the harness + the ensure_heap_capacity hook): a refused single request never
+    # reaches the host; every host request of >= 64 KiB is preceded by a granted limit check that covers it
+    if kind in (1, 2, 3) and r["op"] in SINGLE and ev["nhost"] > 0:
+        ctx.violation(f"host-alloc-before-check:{fam}", f"refused ({KIND[kind]}) but the host allocator had been asked for {ev['nhost']} block(s) of up to "
+                      f"{ev['maxhost']} bytes (request of {req} bytes, limit {r['limit']})", rep)
+    if fam == "string_product" and kind == 1 and ev["maxhost"] > 4 * max(r["size"], 1) + HOST_T:
+        ctx.violation(f"host-alloc-before-check:{fam}", f"refused (OutOfMemory) but the host allocator had been asked for a block of {ev['maxhost']} bytes "
+                      f"(two operands of {r['size']} bytes, product {r['size'] ** 2}, limit {r['limit']})", rep)
+    if (r["op"] in SINGLE or fam in ("vec_push", "vec_reserve", "string_product")) and r["op"] != "bytes_alloc" and ev["uncovered"] > 0:
+        ctx.violation(f"host-alloc-uncovered:{fam}", f"the host allocator was asked for {ev['first_uncovered']} bytes without a preceding granted limit check "
+                      f"that covers them ({ev['uncovered']} such requests)", rep)
     if kind in (1, 2, 3) and r["op"] in SINGLE and r["dpeak_kib"] > 512:
         ctx.violation(f"host-alloc-before-check:{fam}", f"refused ({KIND[kind]}) after the address space had grown by {r['dpeak_kib']} KiB: "
                       f"the host allocated before the limit check (request of {req} bytes, limit {r['limit']})", rep)
@@ -149,6 +179,29 @@ def oracle(ctx, r, const, stats):
 
 def correspond(ctx, rows, const, tag):
     cases, idx = [], []
+    # per-iteration requests of the guarded loops: the limit checks that one more iteration adds (size 2 against size 1;
+    # the growth of the keep vec from capacity 1 to 4 happens in iteration 1)
+    allocs = {}
+    cks = {(r["op"], r["opt"], r["size"]): r["ev"]["ck"] for r in rows if r["op"] in GUARDED_LOOPS and r["size"] in (1, 2) and r["ev"]["ck"]}
+    deltas = {(r["op"], r["opt"], r["size"]): r["delta"] for r in rows if r["op"] in GUARDED_LOOPS and r["size"] in (1, 2)}
+    for (op, opt, size), ck2 in cks.items():
+        ck1 = cks.get((op, opt, 1))
+        if size == 2 and ck1 and ck2[:len(ck1)] == ck1 and all(not x.endswith("!") for x in ck2):
+            al = [int(x) for x in ck2[len(ck1):]]
+            # alloc_vec / alloc_array consult the limit twice for one charge: an adjacent equal pair is charged once when
+            # that is what the accounting of one more iteration says
+            per = deltas.get((op, opt, 2), 0) - deltas.get((op, opt, 1), 0)
+            flags = [True] * len(al)
+            if sum(al) != per:
+                for i in range(1, len(al)):
+                    if al[i] == al[i - 1] and flags[i - 1]:
+                        flags[i - 1] = False
+            if sum(a for a, f in zip(al, flags) if f) == per:
+                allocs[(op, opt)] = list(zip(al, flags))
+    ctx.cov.setdefault("loop_requests", {}).update({f"{k[0]}@O{k[1]}": [[a, f] for a, f in v] for k, v in allocs.items()})
+    for op in GUARDED_LOOPS:
+        if any(r["op"] == op for r in rows) and not any(k[0] == op for k in allocs):
+            ctx.broken.append(f"correspondence C10: the per-iteration requests of {op} could not be read from the check log")
     med = {}
     for r in rows:
         if r["a0"]:
@@ -156,16 +209,22 @@ def correspond(ctx, rows, const, tag):
     for k, r in enumerate(rows):
         if r["op"] not in MODELLED or r["kind"] in (7, 9):
             continue
-        if r["op"] == "concat_double" and r["limit"] != (1 << 20):
-            continue    # above 1 MiB the collector may run between the doublings (not modelled)
+        if r["op"] in ("replace_sq", "join_sq") and r["size"] == 1:
+            continue    # one-character results: whether they are charged depends on which tiny strings are already interned
         c = const.get((r["op"], r["opt"]))
         if c is None:
             continue
         a0 = r["a0"] or sorted(med.get((r["op"], r["opt"], r["limit"]), [0]))[0]
         n = r["size"]
-        q = f"QOp ({r['coq_op']}) ({n})%Z {r['limit']} {CAP_LO} {CAP_HI} {a0 + c}"
+        cop = r["coq_op"]
+        if r["op"] in GUARDED_LOOPS:
+            al = allocs.get((r["op"], r["opt"]))
+            if al is None:
+                continue
+            cop = "OLoop [" + "; ".join("(%d%%N, %s)" % (a, "true" if f else "false") for a, f in al) + "]"
+        q = f"QOp ({cop}) ({n})%Z {r['limit']} {CAP_LO} {CAP_HI} {a0 + c}"
         charge = r["delta"] - c if (r["kind"] == 0 or r["op"] in LOOPS) else 0
-        o = f"([{r['kind']}; ({charge})]%Z, @nil Z)"
+        o = f"([{r['kind']}; ({charge}); {1 if r['ev']['nhost'] > 0 else 0}]%Z, @nil Z)"
         cases.append((q, o))
         idx.append(k)
     # the push loops cost time proportional to their count in the model (up to 2 million steps for Vec<Bool>):
@@ -198,7 +257,7 @@ def run(ctx):
     ctx.cov["trusted_base"] = TRUSTED
     ctx.assumptions = ["the transition model is the code: checked by the child-process tie below",
                        "what the host allocator does with a request is outside the model (level: partial)"]
-    proved = ctx.prove("C10", extracted=["HeapConsts"])
+    proved = ctx.prove("C10", extracted=["HeapConsts", "HeapSites"])
     if ctx.tier == "thorough" and proved:
         ctx.coqchk("C10")
     ok, out = vlib.coq_make(["Base/CaseCheck.vo", "Model/HeapLimitObs.vo"])
